@@ -96,7 +96,11 @@ def main(tier):
         ts.update((2 ** 31 - 2, 2 ** 31 - 1, 2 ** 31, 2 ** 31 + 1, 2 ** 32, 2 ** 32 + 1))
         for zone, evn, lo in (("TAI", "Tai", 730 * 86400), ("GPS", "Gps", 3657 * 86400)):
             drv.cmd("O " + zone)
-            for t in sorted(ts):
+            # one process, three orders: the answer must not depend on what was looked up before (a cache of the last leap period would)
+            asc = [t for t in sorted(ts) if t >= lo]
+            shuf = list(asc)
+            rng.shuffle(shuf)
+            for t in asc + asc[::-1] + shuf:
                 if t < lo:
                     continue
                 r_ = drv.cmd("L %d" % t)
